@@ -104,6 +104,8 @@ def gen_cases(tier, rng):
                 continue
             for n in (1, 100):
                 add(dm.CGetRQMessage, n, 7, m, 'bytes' if n == 1 else 'bytesio')
+    for n in (0, 1, 65529, 65530, 65531, 131060, 131061):   # no maximum in force (0): fragments of 65530
+        add(dm.CStoreRQMessage, n, 3, 0, ['bytes', 'bytesio', 'file'][n % 3])
     for pc in range(1, 256):                         # presentation context ids 1..255
         add(dm.NSetRQMessage, pc % 5, pc, 16 + pc % 3)
     if tier != 'quick':
